@@ -36,6 +36,9 @@ def instances(tier, seed):
                 g = "core" if (tier == "thorough" or second == "same" or rng.random() < 0.3) else "ext"
                 out.append((g, dict(kind="use", spec=spec, skel=sk, second=second, maxrank=2,
                                     pre=rng.choice([None, None, "unbound-symbolic", "double-structured", "unbound-structure"]))))
+    for spec in (("arr", "?a"), ("arr", "*?v"), ("arr", "?a b")):
+        for sk in ("t2", "dict"):
+            out.append(("core", dict(kind="use", spec=spec, skel=sk, second="same", maxrank=2, pre=None, ws=True)))
     for form in ("bare-array", "structureless", "double-structured", "double-structured-deep", "union-outside",
                  "double-structured-same", "double-structured-same-single"):
         for dims in ("?a", "*?v", "?a b"):
@@ -105,6 +108,11 @@ def scenario(inst, V):
         return scenario_misuse(inst, V)
     spec = c08._tuplify(inst["spec"])
     ann = PyTree[T.to_ann(spec, V.ARR), "T"]
+    ann_second = ann
+    if inst.get("ws"):
+        # surrounding whitespace in the structure string is insignificant: ' T' / 'T ' are 'T'
+        ann = PyTree[T.to_ann(spec, V.ARR), " T"]
+        ann_second = PyTree[T.to_ann(spec, V.ARR), "T  "]
     n1, mk1 = c08.SKEL[inst["skel"]]
     sk2 = inst["skel"] if inst["second"] == "same" else OTHER[inst["skel"]]
     n2, mk2 = c08.SKEL[sk2]
@@ -127,7 +135,7 @@ def scenario(inst, V):
             if r == D.ACC:
                 B = st["B"]
         t2 = mk2(leaves_for(inst, V, "w", n2, spec))
-        got2 = c08.observe(t2, ann)
+        got2 = c08.observe(t2, ann_second)
         if T.structure_sig(spec, t1, V.ARR) == T.structure_sig(spec, t2, V.ARR):
             exp2, B2 = T.tree_check(V, spec, t2, "T", B, V.ARR)
         else:
